@@ -1,11 +1,10 @@
 import AslModel.FileText
 import AslProofs.FileText
-import AslProps.C08
 /-!
 # C17 — File and TextFile return exactly the bytes, text and lines that were written
 
 Property theorems only (model: `AslModel/FileText.lean`, run by `Driver/C17.lean` against the real library
-on every check; helper lemmas: `AslProofs/FileText.lean`; UTF-16 → UTF-8: C08's `utf16_utf8_std`).
+on every check; helper lemmas: `AslProofs/FileText.lean`; UTF-16 → UTF-8: `fromWide_std`, C08's statement re-proved from `AslProofs/Utf.lean`).
 
 Specifications are written from the abstract semantics, not from the code:
 * a text's lines are what splitting at LF gives, each piece that is followed by LF losing one CR;
@@ -204,24 +203,29 @@ theorem text_bom_utf8 (t : Bytes) (hlen : t.length + 3 < 2147483648) : text (0xE
   simp only [if_pos h2, if_neg e1, if_neg e2, if_pos e3, List.tail_cons]
   rw [List.take_of_length_le (by simp only [List.length_cons]; omega)]
 
+/-! The UTF specifications are `Std.utf8` (Lean core's `String.utf8EncodeChar` per scalar value), `Std.utf16`
+(Unicode D91) and `Std.NoNul`, defined in `AslProofs/FileText.lean` with the same text as `C08.Std`. -/
+example : Std.utf8 [Char.ofNat 0xE9, Char.ofNat 0x1F600] = [0xC3, 0xA9, 0xF0, 0x9F, 0x98, 0x80] := by decide
+example : Std.utf16 [Char.ofNat 0xE9, Char.ofNat 0x1F600] = [0xE9, 0xD83D, 0xDE00] := by decide
+
 namespace Spec
 /-- the text contains CR immediately followed by LF -/
 def HasCRLF (cs : List Char) : Prop := ∃ pre post, cs = pre ++ Char.ofNat 13 :: Char.ofNat 10 :: post
 
 /-- a UTF-16 file: byte-order mark, then every unit low byte first (LE) or high byte first (BE) -/
-def utf16leFile (cs : List Char) : Bytes := [0xFF, 0xFE] ++ le16 (C08.Std.utf16 cs)
-def utf16beFile (cs : List Char) : Bytes := [0xFE, 0xFF] ++ be16 (C08.Std.utf16 cs)
+def utf16leFile (cs : List Char) : Bytes := [0xFF, 0xFE] ++ le16 (Std.utf16 cs)
+def utf16beFile (cs : List Char) : Bytes := [0xFE, 0xFF] ++ be16 (Std.utf16 cs)
 end Spec
 
-theorem utf16_lt (cs : List Char) : ∀ u ∈ C08.Std.utf16 cs, u < 65536 := by
+theorem utf16_lt (cs : List Char) : ∀ u ∈ Std.utf16 cs, u < 65536 := by
   intro u hu
-  simp only [C08.Std.utf16, List.mem_flatMap] at hu
+  simp only [Std.utf16, List.mem_flatMap] at hu
   obtain ⟨c, -, hu⟩ := hu
   have hv : c.toNat < 0x110000 := by
     have := c.valid
     simp only [Char.toNat, UInt32.isValidChar, Nat.isValidChar] at *
     omega
-  unfold C08.Std.utf16Char at hu
+  unfold Std.utf16Char at hu
   split at hu
   · simp only [List.mem_singleton] at hu; omega
   · simp only [List.mem_cons, List.not_mem_nil, or_false] at hu
@@ -229,15 +233,15 @@ theorem utf16_lt (cs : List Char) : ∀ u ∈ C08.Std.utf16 cs, u < 65536 := by
 
 theorem noCRLF16_utf16 (cs : List Char) (p : Nat)
     (hp : p = 13 → ∀ c t, cs = c :: t → c.toNat ≠ 10) (h : ¬ Spec.HasCRLF cs) :
-    noCRLF16 p (C08.Std.utf16 cs) = true := by
+    noCRLF16 p (Std.utf16 cs) = true := by
   induction cs generalizing p with
-  | nil => simp [C08.Std.utf16, noCRLF16]
+  | nil => simp [Std.utf16, noCRLF16]
   | cons c t ih =>
     have ht : ¬ Spec.HasCRLF t := by
       rintro ⟨pre, post, rfl⟩
       exact h ⟨c :: pre, post, rfl⟩
-    simp only [C08.Std.utf16, List.flatMap_cons] at *
-    unfold C08.Std.utf16Char
+    simp only [Std.utf16, List.flatMap_cons] at *
+    unfold Std.utf16Char
     split
     · rename_i hb
       simp only [List.singleton_append, noCRLF16, Bool.and_eq_true, Bool.not_eq_true', Bool.and_eq_false_iff,
@@ -269,32 +273,35 @@ theorem hasCRLF_head (cs : List Char) : (0 : Nat) = 13 → ∀ c t, cs = c :: t 
 /-- the full statement of the property for UTF-16 files: every NUL-free scalar-value sequence behind a
     UTF-16 byte-order mark comes back as its UTF-8 encoding -/
 def text_utf16_full : Prop :=
-  ∀ cs : List Char, C08.NoNul cs → (Spec.utf16leFile cs).length < 2147483648 →
-    text (Spec.utf16leFile cs) = some (C08.Std.utf8 cs) ∧ text (Spec.utf16beFile cs) = some (C08.Std.utf8 cs)
+  ∀ cs : List Char, Std.NoNul cs → (Spec.utf16leFile cs).length < 2147483648 →
+    text (Spec.utf16leFile cs) = some (Std.utf8 cs) ∧ text (Spec.utf16beFile cs) = some (Std.utf8 cs)
 
 /-- **text_utf16_partial**: the full statement holds for every text *without an adjacent CR LF* -/
-theorem text_utf16_partial (cs : List Char) (h0 : C08.NoNul cs) (hcr : ¬ Spec.HasCRLF cs)
+theorem text_utf16_partial (cs : List Char) (h0 : Std.NoNul cs) (hcr : ¬ Spec.HasCRLF cs)
     (hlen : (Spec.utf16leFile cs).length < 2147483648) :
-    text (Spec.utf16leFile cs) = some (C08.Std.utf8 cs) ∧ text (Spec.utf16beFile cs) = some (C08.Std.utf8 cs) := by
+    text (Spec.utf16leFile cs) = some (Std.utf8 cs) ∧ text (Spec.utf16beFile cs) = some (Std.utf8 cs) := by
   have hcr16 := noCRLF16_utf16 cs 0 (hasCRLF_head cs) hcr
   have hlt := utf16_lt cs
-  have hle : (le16 (C08.Std.utf16 cs)).length = (be16 (C08.Std.utf16 cs)).length := by
+  have hle : (le16 (Std.utf16 cs)).length = (be16 (Std.utf16 cs)).length := by
     simp [le16, be16, List.length_flatMap]
   unfold Spec.utf16leFile at hlen
   simp only [List.length_append, List.length_cons, List.length_nil] at hlen
   constructor
   · unfold Spec.utf16leFile
     rw [text_utf16le_aux _ hlt hcr16 (by omega)]
-    exact C08.utf16_utf8_std cs h0
+    exact fromWide_std cs h0
   · unfold Spec.utf16beFile
     rw [text_utf16be_aux _ hlt hcr16 (by omega)]
-    exact C08.utf16_utf8_std cs h0
+    exact fromWide_std cs h0
+
+-- the hypotheses of `text_utf16_partial` are satisfiable: "é😀\r" (CR not followed by LF) as UTF-16LE
+example : text [0xFF, 0xFE, 0xE9, 0x00, 0x3D, 0xD8, 0x00, 0xDE, 0x0D, 0x00] = some [0xC3, 0xA9, 0xF0, 0x9F, 0x98, 0x80, 0x0D] := by decide
 
 /-- **text_utf16_crlf_counterexample**: the two-character text CR LF in UTF-16LE (FF FE 0D 00 0A 00) comes
     back as LF alone — `TextFile::text()` folds CR LF while decoding UTF-16 (known finding utf16-crlf-fold) -/
 theorem text_utf16_crlf_counterexample : ¬ text_utf16_full := by
   intro h
-  have hn : C08.NoNul [Char.ofNat 13, Char.ofNat 10] := by
+  have hn : Std.NoNul [Char.ofNat 13, Char.ofNat 10] := by
     intro c hc
     simp only [List.mem_cons, List.not_mem_nil, or_false] at hc
     rcases hc with rfl | rfl <;> decide
@@ -307,10 +314,7 @@ theorem text_utf16_crlf_counterexample : ¬ text_utf16_full := by
 /-- **text_total**: `text()` never reads outside its buffers, whatever the bytes of the file (odd lengths,
     lone surrogates, NUL units, truncated marks) -/
 theorem text_total (c : Bytes) : ∃ t, text c = some t := by
-  have hw : ∀ a : List Nat, ∃ t, wideToString a = some t := by
-    intro a
-    obtain ⟨_, _, ⟨o, ho, _⟩⟩ := C08.utf_safe_constructors [] 0 (a.map Int.ofNat ++ [0]) (by simp [AslProofs.Utf.hasZero])
-    exact ⟨o, ho⟩
+  have hw := wideToString_some
   unfold text
   dsimp only
   repeat' split
